@@ -1,4 +1,5 @@
 import Sop.Model.Occ
+import Sop.Model.OccFresh
 import Sop.Driver.Util
 /-! Line protocol over Model L (shared by the C02 and C05 drivers). See harness/occx/emit.go for the Go side.
 
@@ -7,7 +8,8 @@ import Sop.Driver.Util
   pg <id> <page>                           -> ok      (page of an item a transaction will add)
   txn <t> <w|r> <commit|abort> <op>...     -> ok      ops: get:k upd:k:v updf:k:src:d add:id:k:v addne:id:k:v ups:id:k:v rm:k touch:k
   step <t> <hint>...                       -> state line of transaction t after the step
-  end                                      -> final committed state
+  end                                      -> final committed state, then `\t%goodU:ok|no`: whether every step of the case met
+                                              C05's install-freshness hypothesis (`InstallFreshN` over the ids known so far)
 -/
 namespace Sop.Driver.OccProto
 open Sop.Driver Sop.Occ
@@ -109,5 +111,24 @@ def step (g : G) (ws : List String) : G × String :=
   | "note" :: _ => (g, "ok")
   | _ => (g, "bad-op")
 
-def run : IO Unit := runLoop reset step
+/-- driver state: the model state and whether every step so far met `InstallFreshN` -/
+structure St where
+  g : G
+  goodU : Bool := true
+
+def resetSt (hdr : List String) : St := { g := reset hdr }
+
+def stepSt (s : St) (ws : List String) : St × String :=
+  let (g', out) := step s.g ws
+  match ws with
+  | "step" :: t :: _ =>
+    match t.toNat? with
+    | some t =>
+      let items := s.g.ids ++ ((s.g.txns t).tracked.map (·.item))
+      ({ g := g', goodU := s.goodU && decide (InstallFreshN items s.g t) }, out)
+    | none => ({ s with g := g' }, out)
+  | ["end"] => ({ s with g := g' }, out ++ (if s.goodU then "\t%goodU:ok" else "\t%goodU:no"))
+  | _ => ({ s with g := g' }, out)
+
+def run : IO Unit := runLoop resetSt stepSt
 end Sop.Driver.OccProto
